@@ -33,9 +33,18 @@ InitShapesMulti ==
 (* ones.  Used with EmitMode = "print".                                    *)
 (***************************************************************************)
 DeepVector(n) == [i \in 1..n |-> IF i = 1 THEN 0 ELSE IF i = n THEN 1 ELSE i - 1]
+\* a chain of d nodes whose tip has two leaves (siblings opened and closed far below the start node)
+TipVector(d) == [i \in 1..(d + 2) |-> IF i = 1 THEN 0 ELSE IF i > d THEN d ELSE i - 1]
+\* a "comb": every chain node (indices 1, 4, 7, ...) has three children - a leaf, the next chain node, another leaf - so
+\* the deep part is drawn under "|   " guides on every level and leaves are opened AFTER the deep part was closed
+CombVector(n) == [i \in 1..n |-> IF i = 1 THEN 0
+                                 ELSE IF i % 3 = 1 THEN i - 3
+                                 ELSE IF i % 3 = 2 THEN i - 1
+                                 ELSE IF i = 3 THEN 1 ELSE i - 5]
+DeepVectors == {DeepVector(20), DeepVector(22), TipVector(9), TipVector(12), TipVector(18), CombVector(31), CombVector(39)}
 InitDeepPrint ==
-  \E n \in {20, 22} :
-     LET p == DeepVector(n)  pth == CanonPath(p, 1)  S == RunPath(InitState(0), pth) IN
+  \E p \in DeepVectors :
+     LET pth == CanonPath(p, 1)  S == RunPath(InitState(0), pth) IN
      /\ count = S.count /\ live = S.live /\ f = S.f /\ avail = S.avail /\ retired = S.retired
      /\ gen = S.gen /\ val = S.val /\ capLow = S.capLow /\ tok = S.tok /\ nissued = S.nissued
      /\ path = pth /\ last = NoResult
